@@ -32,8 +32,8 @@ def reexecute(binary, v, count=5):
     return json.load(open(o))
 
 
-def run_mc(prop, tier, monitors, assumptions, rule, binary=None, extra_env=None, level='model_checking'):
-    t0 = time.time()
+def run_mc(prop, tier, monitors, assumptions, rule, binary=None, extra_env=None, level='model_checking', pre_violations=(), extra_cov=None, t0=None):
+    t0 = t0 or time.time()
     binary = binary or build_mc()
     mons = ','.join(monitors)
     budget = float(os.environ.get('VERIF_BUDGET_S', '150' if tier == 'quick' else '1500'))
@@ -48,7 +48,7 @@ def run_mc(prop, tier, monitors, assumptions, rule, binary=None, extra_env=None,
     else:
         plan = [('full', 1), ('reduced', 2)]
     all_results = []
-    violations = []
+    violations = list(pre_violations)
     seen_keys = set()
     frontier = None
     per_level = []
@@ -125,6 +125,8 @@ def run_mc(prop, tier, monitors, assumptions, rule, binary=None, extra_env=None,
     merged = list(bysig.values())
     new, _old = vlib.classify(prop, merged)
     for v in new[:40]:
+        if v.get('prop') not in monitors:
+            continue  # found by a dedicated deterministic test, not by an mc monitor
         rr = reexecute(binary, v, 5)
         if not rr['identical'] or not rr['reproduced']:
             print('HARNESS-NONDETERMINISM: %s did not reproduce identically in 5 re-executions: %s' % (v['sig'], rr['runs']))
@@ -152,4 +154,6 @@ def run_mc(prop, tier, monitors, assumptions, rule, binary=None, extra_env=None,
         'bounds': 'scenarios x full alphabet (depth 1), mutator successors x %s alphabet (depth 2)%s' % (
             'reduced' if tier == 'quick' else 'full', '' if tier == 'quick' else ', depth-2 mutator successors x reduced alphabet (depth 3)'),
     }
+    if extra_cov:
+        cov.update(extra_cov)
     vlib.finish(prop, tier, level, cov, merged, t0, assumptions=assumptions)
